@@ -306,7 +306,9 @@ pub fn replay_edge(edge: &Value, prop: &str, rep: &mut Report) {
         }
         if let Some(t) = twin.as_ref() {
             if twin_div.is_none() {
-                let (a, b) = (guarded(|| s.observe()), guarded(|| t.observe()));
+                // contents only: capacities (a clone_from target may keep its allocation) are not part of C09/C16
+                let content = |o: Result<Value, String>| o.map(|v| json!([v["len"], v["is_empty"], v["items"], v["iter"], v["iter_clone_a"], v["iter_clone_b"], v["used"]]));
+                let (a, b) = (content(guarded(|| s.observe())), content(guarded(|| t.observe())));
                 if a != b {
                     twin_div = Some(format!("step {i}: copy {:?} vs original {:?}", a, b));
                 }
@@ -418,8 +420,9 @@ pub fn replay_edge(edge: &Value, prop: &str, rep: &mut Report) {
                     if bad {
                         judged = false
                     } else {
+                        let content = |o: &Result<Value, String>| o.as_ref().ok().map(|v| json!([v["len"], v["is_empty"], v["items"], v["iter"], v["used"]]));
                         let f = guarded(|| fresh.observe());
-                        if f != obs {
+                        if content(&f) != content(&obs) {
                             why.push("not-fresh-after-clear".into())
                         }
                     }
